@@ -131,9 +131,27 @@ def worker(job):
     cases = [(c['nsess'], c['program']) for c in corpus]
     for _ in range(ncases):
         nsess = r.choice([1, 2, 2, 3, 3])
-        prog = l3.gen_program(r, nsess, r.randint(4, maxlen), dict(PROFILE, main_box=r.choice([0, 0, 1])))
-        # some sessions start unselected so that messages arrive while nobody has the mailbox selected
-        prog = [op for k, op in enumerate(prog) if not (k < nsess and op[0] == 'select' and r.random() < 0.5)]
+        prof = dict(PROFILE, main_box=r.choice([0, 0, 1]))
+        if r.random() < 0.3:
+            # unclaimed messages travelling: sources that were only ever EXAMINEd, destinations somebody has selected
+            prof = dict(prof, examine=0.6, weights=dict(PROFILE['weights'], copy=20, move=8, select=22, append=16))
+        carry = nsess >= 2 and r.random() < 0.3
+        if carry:
+            prof = dict(prof, pre_append=0)
+        prog = l3.gen_program(r, nsess, r.randint(4, maxlen), prof)
+        if carry:
+            # deliveries while nobody has the mailbox selected, then one session only EXAMINEs it while another has a
+            # different mailbox selected read-write; the random tail copies and re-selects
+            x = prof['main_box']
+            y = r.choice([b for b in (0, 1, 2) if b != x])
+            head = [['append', r.randrange(nsess), x, [], 90 + k, 0, 0] for k in range(r.randint(1, 3))]
+            head += [['select', 0, x, True], ['select', 1, y, False]]
+            if r.random() < 0.6:
+                head.append(['copy', 0, False, r.random() < 0.5, '1:*', y, 1])
+            prog = head + prog[nsess:]
+        else:
+            # some sessions start unselected so that messages arrive while nobody has the mailbox selected
+            prog = [op for k, op in enumerate(prog) if not (k < nsess and op[0] == 'select' and r.random() < 0.5)]
         cases.append((nsess, instrument(prog, nsess, r)))
     done = []
     for nsess, prog in cases:
@@ -145,6 +163,11 @@ def worker(job):
 
 
 CORPUS = [
+    # an unclaimed message (stored recent bit still set) is copied out of an EXAMINEd mailbox into one another session has selected:
+    # that session is told, nobody else may be told afterwards (seeded C17-a)
+    dict(nsess=3, program=[['append', 0, 0, [], 1, 0, 0], ['select', 1, 1, False], ['select', 0, 0, True], ['copy', 0, False, True, '101', 1, 1],
+                           ['noop', 1], ['fetch', 1, False, '1:*', ['UID', 'FLAGS']], ['select', 2, 1, False], ['fetch', 2, False, '1:*', ['UID', 'FLAGS']],
+                           ['close', 1], ['select', 1, 1, False], ['fetch', 1, False, '1:*', ['UID', 'FLAGS']]]),
     # D26: \Recent in APPEND's flag list
     dict(nsess=2, program=[['append', 0, 0, [0, 9], 1, 0, 0], ['select', 1, 0, True], ['fetch', 1, False, '1:*', ['UID', 'FLAGS']],
                            ['select', 0, 0, False], ['fetch', 0, False, '1:*', ['UID', 'FLAGS']], ['close', 0], ['select', 0, 0, False], ['fetch', 0, False, '1:*', ['UID', 'FLAGS']]]),
